@@ -1,11 +1,13 @@
 //! package `misc` (see CONVENTIONS.md): C35 bins, C38 membal, C37 xducer, C39 opts.
 pub mod bins;
 pub mod inst;
+pub mod membal;
 
 pub fn dispatch(tokens: &[&str]) -> Option<String> {
     let (c, args) = tokens.split_first()?;
     Some(match *c {
         "bins" => bins::run(args),
+        "membal" => membal::run(args),
         _ => return None,
     })
 }
